@@ -26,6 +26,10 @@ def classify_read(node, setnames, capnames, nodenames):
     return None
 
 
+ATOMIC = ("_relativize_and_fit_to_screen", "_recreate_stylesheet", "_recreate_p_tag", "_recreate_style_block",
+          "_recreate_styling_tag", "_recreate_style", "_recreate_span", "_recreate_text", "_recreate_sync", "_recreate_blank_tag")
+
+
 def sanitised_levels(fn):
     """levels re-assigned through _relativize_and_fit_to_screen in `fn`:
     level -> (line, value is the level's own layout, guards the statement sits under)"""
@@ -59,8 +63,8 @@ def _foreign_guards(guards, lvl):
 def run(ctx, report):
     idx = ctx.index
     # --- DFXP: consumption = what RegionCreator reads ------------------------
-    rc_collect = idx.get_function("pycaption/dfxp/base.py", "RegionCreator._collect_unique_regions")
-    rc_pos = idx.get_function("pycaption/dfxp/base.py", "RegionCreator.get_positioning_info")
+    rc_collect = idx.get_function("pycaption/dfxp/base.py", "RegionCreator._collect_unique_regions", inline=True)
+    rc_pos = idx.get_function("pycaption/dfxp/base.py", "RegionCreator.get_positioning_info", inline=True)
     consumed = {}
     for fn in (rc_collect, rc_pos):
         report.covered(fn)
@@ -73,7 +77,7 @@ def run(ctx, report):
         raise AnalysisError(f"RegionCreator reads layout from an unrecognised holder: {unknown}")
     if set(consumed) != set(LEVELS):
         raise AnalysisError(f"RegionCreator consumption levels {sorted(consumed)} (expected all four)")
-    wr = idx.get_function("pycaption/dfxp/base.py", "DFXPWriter.write")
+    wr = idx.get_function("pycaption/dfxp/base.py", "DFXPWriter.write", inline=True, keep=ATOMIC)
     report.covered(wr)
     san = sanitised_levels(wr)
     rc_line = None
@@ -93,7 +97,7 @@ def run(ctx, report):
                       "why": None if ok else f"the {lvl}-level layout reaches the region table without passing "
                                              "_relativize_and_fit_to_screen"}, "4")
     # --- SAMI ------------------------------------------------------------------
-    sw = idx.get_function("pycaption/sami.py", "SAMIWriter.write")
+    sw = idx.get_function("pycaption/sami.py", "SAMIWriter.write", inline=True, keep=ATOMIC)
     report.covered(sw)
     san = sanitised_levels(sw)
     cons = {}
